@@ -402,6 +402,7 @@ def r3_squares(ctx):
     wex = Exprs(wr)
     wcfg = Cfg(wr)
     ok = False
+    order_read = False
     for b in sorted(wcfg.reach):
         t = wr["blocks"][b]["term"]
         if t["k"] == "call" and t["callee"].get("key") == C + "square::Square::from_indices":
@@ -421,8 +422,14 @@ def r3_squares(ctx):
                 d0 = wex.defs.get(i0[1], [None])[0]
                 d1 = wex.defs.get(i1[1], [None])[0]
                 if d0 and d1:
+                    order_read = True
                     ok = wcfg.dominates(d1[1], d0[1]) and d0[1] != d1[1]   # rank iterator (arg1) created first = outer loop
-    ctx.ob(rid, "writer|(file, rank)-order", ok, "" if ok else "the FEN writer does not call Square::from_indices(inner-loop file, outer-loop rank)", ctx.where(wr))
+    if not order_read:
+        # the square is built somewhere else (a helper per rank, an iterator chain): which loop variable is the file
+        # and which the rank is not read here
+        ctx.lost(rid, "the FEN writer's call of Square::from_indices with an inner-loop file and an outer-loop rank")
+    else:
+        ctx.ob(rid, "writer|(file, rank)-order", ok, "" if ok else "the FEN writer does not call Square::from_indices(inner-loop file, outer-loop rank)", ctx.where(wr))
     # e.p. square reader
     ep = ctx.fn(rid, B + "constants::square_shift_from_fen_unchecked")
     eex = Exprs(ep)
